@@ -1639,4 +1639,211 @@ example : tabletsOf exRC exTabRq = some exTablets ∧
     (tabletReplicas exRC exTablets 250 none).map (fun r => (r.1.id, r.2)) = [(4, 3)] ∧
     tabletReplicas exRC exTablets 301 none = [] := by decide
 
+/-! ## 7. The plan's shard and the pool's buckets use ONE sharder: the connection is bound to the shard that owns the token -/
+
+/-- `nr_shards` of a connection's shard info is a `u16` (`ShardInfo`). -/
+def NrU16 (c : Conn) : Prop := ∀ i, c.info = some i → i.nr ≤ 65535
+
+/-- The refiller's current and published sharders hold a `u16` shard count. -/
+structure NrBound (rf : Refiller) : Prop where
+  cur : ∀ s, rf.sharder = some s → s.nr ≤ 65535
+  pub : ∀ s b, rf.shared = some (.sharded s b) → s.nr ≤ 65535
+
+private theorem nrBound_of {rf rf' : Refiller} (h : NrBound rf) (hs : rf'.sharder = rf.sharder) (hp : rf'.shared = rf.shared) :
+    NrBound rf' := ⟨by rw [hs]; exact h.cur, by rw [hp]; exact h.pub⟩
+
+private theorem nrBound_publish {rf : Refiller} (h : NrBound rf) : NrBound rf.publish := by
+  unfold Refiller.publish
+  split
+  · exact ⟨h.cur, (by intro s b hc; cases hc)⟩
+  · cases hs : rf.sharder with
+    | some s =>
+      simp only []
+      refine ⟨by intro s' h'; exact h.cur s' (by rw [hs]; exact h'), ?_⟩
+      intro s' b hc
+      simp only [Option.some.injEq, PoolConns.sharded.injEq] at hc
+      exact h.cur s' (by rw [hs, hc.1])
+    | none =>
+      simp only []
+      exact ⟨(by intro s' h'; cases h'), (by intro s' b hc; cases hc)⟩
+
+private theorem nrBound_step {rf rf' : Refiller} (h : NrBound rf) (e : PoolEvt)
+    (hv : ∀ c r, e = .ready c r → NrU16 c) (he : rf.step e = some rf') : NrBound rf' := by
+  cases e with
+  | ready c requested =>
+    simp only [Refiller.step, Option.map_eq_some_iff] at he
+    obtain ⟨rf1, h1, rfl⟩ := he
+    have hc := hv c requested rfl
+    have hm : NrBound (rf.maybeReshard (sharderOf c)) := by
+      unfold Refiller.maybeReshard
+      split
+      · exact h
+      · refine ⟨?_, h.pub⟩
+        intro s hs
+        simp only [] at hs
+        unfold sharderOf at hs
+        obtain ⟨i, hi, rfl⟩ := Option.map_eq_some_iff.mp hs
+        exact hc i hi
+    have h1' : NrBound rf1 := by
+      unfold Refiller.handleReady at h1
+      simp only [] at h1
+      split at h1
+      · cases h1
+      · split at h1
+        · cases h1; exact nrBound_publish (nrBound_of hm rfl rfl)
+        · split at h1
+          · cases h1; exact hm
+          · cases h1; exact nrBound_of hm rfl rfl
+    split
+    · exact nrBound_of h1' rfl rfl
+    · exact h1'
+  | broken c =>
+    simp only [Refiller.step, Option.some.injEq] at he
+    subst he
+    unfold Refiller.removeConn
+    simp only []
+    split
+    · exact nrBound_publish (nrBound_of h rfl rfl)
+    · split
+      · exact nrBound_of h rfl rfl
+      · exact h
+
+/-- **Every pool a refiller publishes has a `NonZeroU16` shard count** (given that connections report `u16` counts). -/
+theorem published_sharder_valid (size : PoolSize) (evts : List PoolEvt) (rf : Refiller)
+    (hv : ∀ c r, PoolEvt.ready c r ∈ evts → NrU16 c) (h : (Refiller.init size).run evts = some rf)
+    (s : SharderM) (b : List (List Conn)) (hp : rf.shared = some (.sharded s b)) : s.Valid := by
+  have key : ∀ (evts : List PoolEvt) (r0 : Refiller), NrBound r0 → (∀ c r, PoolEvt.ready c r ∈ evts → NrU16 c) →
+      r0.run evts = some rf → NrBound rf := by
+    intro evts
+    induction evts with
+    | nil => intro r0 h0 _ he; simp only [Refiller.run, Option.some.injEq] at he; subst he; exact h0
+    | cons e es ih =>
+      intro r0 h0 hv he
+      simp only [Refiller.run] at he
+      cases hs : r0.step e with
+      | none => rw [hs] at he; cases he
+      | some r1 =>
+        rw [hs] at he
+        exact ih r1 (nrBound_step h0 e (fun c r hc => hv c r (hc ▸ List.mem_cons_self)) hs)
+          (fun c r hm => hv c r (List.mem_cons_of_mem _ hm)) he
+  have hb := key evts _ ⟨(by intro s hs; cases hs), (by intro s b hs; cases hs)⟩ hv h
+  have hok := (pool_filing_invariant size evts rf h).shared _ hp
+  obtain ⟨hlen, _, i, bucket, hib, _⟩ := hok
+  have hi : i < b.length := by
+    rcases Nat.lt_or_ge i b.length with hlt | hge
+    · exact hlt
+    · rw [List.getElem?_eq_none_iff.mpr hge] at hib; cases hib
+  exact ⟨by omega, hb.pub s b hp⟩
+
+/-- **The connection owns the token** (the composition the property is about): when the shard of the token is computed
+under the SAME sharder `s` as the one the pool's buckets are indexed by, the request travels - for all random choices -
+on a connection the server bound to ScyllaDB's shard of that token (`shardOfSpec` on `s`), whenever the pool holds a
+connection for that shard. No side condition on the shard number is left: it is `< nr_shards ≤ 65535`. -/
+theorem conn_owns_token (s : SharderM) (b : List (List Conn)) (hp : PoolOk (.sharded s b)) (tok : Int)
+    (hs : s.Valid) (hm : s.msb.toNat < 64) (h1 : -2 ^ 63 ≤ tok) (h2 : tok < 2 ^ 63) (ρ : PoolRho) :
+    ∃ c, connectionForShard (.sharded s b) (computedShard (some s) tok) ρ = some c ∧
+      computedShard (some s) tok = Sharding.shardOfSpec s.nr s.msb.toNat tok ∧
+      (∀ bucket, b[Sharding.shardOfSpec s.nr s.msb.toNat tok]? = some bucket → bucket ≠ [] →
+        shardIdOf c = Sharding.shardOfSpec s.nr s.msb.toNat tok) := by
+  obtain ⟨c, he, _, _, h⟩ := connection_shard s b hp (computedShard (some s) tok) ρ
+  have hlt : computedShard (some s) tok < s.nr := C11.shardOfImpl_lt s.nr s.msb _ hs.1
+  have heq : computedShard (some s) tok = Sharding.shardOfSpec s.nr s.msb.toNat tok := by
+    simp only [computedShard]
+    rw [C11.shardOfImpl_eq_spec s.nr s.msb _ hm, Int64.toInt_ofInt_of_le h1 h2]
+  refine ⟨c, he, heq, ?_⟩
+  intro bucket hb hne
+  rw [← heq] at hb ⊢
+  exact h bucket (by have := hs.2; omega) hb hne
+
+/-- **`Node::sharder()` is the sharder of every pooled connection**: the sharder a node answers (`nodeSharder` of the
+pool its refiller published) is the one every connection in that pool reported - so "the shard of the token under the
+target node's sharder" and "the bucket the connection is taken from" speak about the same sharding, as long as the
+plan and the connection lookup see the same published pool. -/
+theorem node_sharder_is_pool_sharder (size : PoolSize) (evts : List PoolEvt) (rf : Refiller)
+    (h : (Refiller.init size).run evts = some rf) (s : SharderM) (hn : nodeSharder rf.shared = some s) :
+    ∃ b, rf.shared = some (.sharded s b) ∧ PoolOk (.sharded s b) ∧
+      ∀ (i : Nat) (bucket : List Conn), b[i]? = some bucket → ∀ c ∈ bucket, sharderOf c = some s ∧ shardIdOf c = i := by
+  cases hsh : rf.shared with
+  | none => rw [hsh] at hn; cases hn
+  | some p =>
+    cases p with
+    | notSharded l => rw [hsh] at hn; cases hn
+    | sharded s' b =>
+      rw [hsh] at hn
+      simp only [nodeSharder, Option.some.injEq] at hn
+      subst hn
+      have hok := (pool_filing_invariant size evts rf h).shared _ hsh
+      exact ⟨b, rfl, hok, fun i bucket hb c hc => ⟨(hok.2.1 i bucket hb c hc).2, (hok.2.1 i bucket hb c hc).1⟩⟩
+
+open ScyllaVerif.Props.C05 in
+/-- **The composed statement, ring tables, with the sharder tied** (C12 as the property states it). `pools id` is the
+refiller of node `id`; `Node::sharder()` of every node IS the sharder of the pool that refiller published (`hnode`) -
+the plan and the connection lookup see the same published pools. Then, for every cluster, configuration, token-aware
+request on a ring table with token `tok`, ALL random choices and ANY event history of every refiller: the first attempt
+goes to a live replica (preferred-datacenter one when one is live), with the shard ScyllaDB's algorithm gives the token
+on THAT node, and - when the node is sharded - it travels on a connection whose SERVER-SIDE shard is exactly that shard
+whenever the node's pool holds one (else on some pooled connection of the node). -/
+theorem route_first_attempt_owns_token (rc : RCluster) (cfg : Config) (r : RRequest) (ρp : RhoPick) (ρf : RhoFb)
+    (draw : Nat) (tok : Int) (htok : r.rq.token = some tok) (h1 : -2 ^ 63 ≤ tok) (h2 : tok < 2 ^ 63)
+    (hwf : WF (rc.toCluster r.rq.token)) (haware : tokenAware (rc.toCluster r.rq.token) cfg r.rq = true)
+    (hring : tabletsOf rc r = none)
+    (pools : Nat → Refiller)
+    (hreach : ∀ id, ∃ size evts, (∀ c q, PoolEvt.ready c q ∈ evts → NrU16 c) ∧ (Refiller.init size).run evts = some (pools id))
+    (hnode : ∀ id, rc.sharder id = nodeSharder (pools id).shared) :
+    let first := firstAttempt rc (routePlan rc cfg r ρp ρf) draw
+    let owned := fun (a : Attempt) =>
+      ∀ s, rc.sharder a.node.id = some s → s.msb.toNat < 64 →
+        a.shard = Sharding.shardOfSpec s.nr s.msb.toNat tok ∧
+        ∃ b, (pools a.node.id).shared = some (.sharded s b) ∧ ∀ ρ : PoolRho,
+          ∃ c, connectionForShard (.sharded s b) a.shard ρ = some c ∧
+            (∀ bucket, b[a.shard]? = some bucket → bucket ≠ [] → shardIdOf c = a.shard)
+    (∀ d, (preference cfg r.rq).datacenter = some d → liveReplicaTargets rc cfg r (.dc d) ≠ [] →
+      ∃ a, first = some a ∧ (a.node, some a.shard) ∈ liveReplicaTargets rc cfg r (.dc d) ∧ owned a) ∧
+    (((preference cfg r.rq).datacenter = none ∨ cfg.failover = true) → liveReplicaTargets rc cfg r .any ≠ [] →
+      ∃ a, first = some a ∧ owned a ∧
+        ((a.node, some a.shard) ∈ liveReplicaTargets rc cfg r .any ∨
+          ∃ d, (preference cfg r.rq).datacenter = some d ∧ (a.node, some a.shard) ∈ liveReplicaTargets rc cfg r (.dc d))) := by
+  intro first owned
+  obtain ⟨g1, g2⟩ := route_first_attempt rc cfg r ρp ρf draw hwf haware
+  -- a ring replica target carries the shard computed under its node's sharder
+  have shard_of : ∀ (a : Attempt) (crit : Pref), (a.node, some a.shard) ∈ liveReplicaTargets rc cfg r crit →
+      a.shard = computedShard (rc.sharder a.node.id) tok := by
+    intro a crit hm
+    simp only [liveReplicaTargets, hring] at hm
+    cases hts : tokenWithStrategy (rc.toCluster r.rq.token) cfg r.rq with
+    | none => rw [hts] at hm; cases hm
+    | some ts =>
+      rw [hts] at hm
+      obtain ⟨n, _, hn⟩ := List.mem_map.mp hm
+      simp only [sharded, Prod.mk.injEq, Option.some.injEq] at hn
+      rw [← hn.2, hn.1]
+      simp [RCluster.toCluster, htok]
+  have own : ∀ (a : Attempt) (crit : Pref), (a.node, some a.shard) ∈ liveReplicaTargets rc cfg r crit → owned a := by
+    intro a crit hm s hs hmsb
+    have hsh := shard_of a crit hm
+    rw [hs] at hsh
+    obtain ⟨size, evts, hv, hrun⟩ := hreach a.node.id
+    have hns : nodeSharder (pools a.node.id).shared = some s := by rw [← hnode]; exact hs
+    obtain ⟨b, hb, hok, _⟩ := node_sharder_is_pool_sharder size evts _ hrun s hns
+    have hvalid := published_sharder_valid size evts _ hv hrun s b hb
+    refine ⟨?_, b, hb, ?_⟩
+    · rw [hsh]
+      exact (conn_owns_token s b hok tok hvalid hmsb h1 h2 ⟨0, fun _ => (0, 0)⟩).choose_spec.2.1
+    · intro ρ
+      obtain ⟨c, he, heq, hc⟩ := conn_owns_token s b hok tok hvalid hmsb h1 h2 ρ
+      refine ⟨c, by rw [hsh]; exact he, ?_⟩
+      intro bucket hbk hne
+      rw [hsh, heq]
+      rw [hsh, heq] at hbk
+      exact hc bucket hbk hne
+  refine ⟨?_, ?_⟩
+  · intro d hd hne
+    obtain ⟨a, ha, hg⟩ := g1 d hd hne
+    exact ⟨a, ha, hg.1, own a _ hg.1⟩
+  · intro hperm hne
+    obtain ⟨a, ha, hg⟩ := g2 hperm hne
+    rcases hg with hg | ⟨d, hd, hg⟩
+    · exact ⟨a, ha, own a _ hg.1, Or.inl hg.1⟩
+    · exact ⟨a, ha, own a _ hg.1, Or.inr ⟨d, hd, hg.1⟩⟩
+
 end ScyllaVerif.Props.C12
